@@ -27,10 +27,16 @@ Definition issued_mono (m m' : impl) : Prop :=
   (exists l, i_issued m' = l ++ i_issued m) /\
   (forall k, stale (g_alloc (i_conns m)) k -> stale (g_alloc (i_conns m')) k).
 
+(* during an emission an entry keeps its flavour, and a disconnect requested for it stays requested until the emission ends *)
+Definition marks_kept (m m' : impl) : Prop :=
+  forall k c, g_get (i_conns m) k = Some c ->
+    exists c', g_get (i_conns m') k = Some c' /\ c_kind c' = c_kind c /\ (c_tbd c = true -> c_tbd c' = true).
+
 Definition impl_keeps (m m' : impl) : Prop :=
   i_emitting m' = i_emitting m /\
   (i_emitting m = true -> keys (i_conns m') = keys (i_conns m) /\ g_alloc (i_conns m') = g_alloc (i_conns m)) /\
-  (i_emitting m = false -> i_dde m = false -> i_dde m' = false).
+  (i_emitting m = false -> i_dde m = false -> i_dde m' = false) /\
+  (i_emitting m = true -> marks_kept m m').
 
 Definition ev_keeps (s s' : evst) : Prop :=
   e_evaluating s' = e_evaluating s /\
@@ -63,12 +69,19 @@ Proof.
   exists (l2 ++ l1). rewrite H2, H1, app_assoc; reflexivity.
 Qed.
 Lemma impl_keeps_refl m : impl_keeps m m.
-Proof. split; [|split]; auto. Qed.
+Proof. split; [|split; [|split]]; auto. intros _ k c Hc. exists c; auto. Qed.
 Lemma impl_keeps_trans a b c : impl_keeps a b -> impl_keeps b c -> impl_keeps a c.
 Proof.
-  intros (E1 & S1 & D1) (E2 & S2 & D2). split; [congruence|]. split.
+  intros (E1 & S1 & D1 & M1) (E2 & S2 & D2 & M2). split; [congruence|]. split; [|split].
   - intros Ha. destruct (S1 Ha) as [K1 A1]. rewrite <- E1 in Ha. destruct (S2 Ha) as [K2 A2]. split; congruence.
   - intros Ha Hd. apply D2; [congruence|]. apply D1; assumption.
+  - intros Ha k c0 Hc. destruct (M1 Ha k c0 Hc) as (c1 & Hc1 & Hk1 & Ht1). rewrite <- E1 in Ha.
+    destruct (M2 Ha k c1 Hc1) as (c2 & Hc2 & Hk2 & Ht2). exists c2. split; [exact Hc2|]. split; [congruence|auto].
+Qed.
+Lemma impl_keeps_same_conns m m' :
+  i_emitting m' = i_emitting m -> i_conns m' = i_conns m -> (i_emitting m = false -> i_dde m = false -> i_dde m' = false) -> impl_keeps m m'.
+Proof.
+  intros E C D. split; [exact E|]. split; [intros _; rewrite C; auto|]. split; [exact D|]. intros _ k c Hc. rewrite C. exists c; auto.
 Qed.
 Lemma ev_keeps_refl s : ev_keeps s s.
 Proof. split; auto. intros _. split; auto. exists []. symmetry; apply app_nil_r. Qed.
@@ -242,6 +255,16 @@ Proof.
   - rewrite nth_upd_other by assumption. reflexivity.
 Qed.
 
+Lemma marks_update m m' k c c' :
+  wf (i_conns m) -> g_get (i_conns m) k = Some c -> c_kind c' = c_kind c -> (c_tbd c = true -> c_tbd c' = true) ->
+  i_conns m' = g_update (i_conns m) k c' -> marks_kept m m'.
+Proof.
+  intros Hwf Hc Hk Ht E k0 c0 Hc0. rewrite E. destruct (update_spec (i_conns m) k c' Hwf) as (_ & Hg & _). rewrite Hg.
+  destruct (gidx_eqb k k0) eqn:Ek.
+  - apply gidx_eqb_eq in Ek. subst k0. rewrite Hc. exists c'. split; [reflexivity|]. assert (c0 = c) by congruence. subst c0. auto.
+  - exists c0. auto.
+Qed.
+
 Lemma alloc_erase (g : garray conn) k : wf g -> g_alloc (g_erase g k) = fst (ga_deallocate (g_alloc g) k).
 Proof.
   intros (Hwa & _). destruct (wf_alloc_deallocate _ k Hwa) as (_ & Hok & _ & _ & _ & Hsame).
@@ -352,10 +375,11 @@ Proof.
       * apply winv_put; [assumption|]. apply impl_ok_mark; assumption.
       * eapply wle_put; [eassumption|imono|].
         { unfold g_update. rewrite Hc. assumption. }
-        intros _. split; [cbn; congruence|split].
+        intros _. split; [cbn; congruence|split; [|split]].
         -- intros _. cbn. split; [apply keys_update; congruence|].
            unfold g_update. rewrite Hc. reflexivity.
         -- intros He; congruence.
+        -- intros _. eapply (marks_update m _ k c (conn_set_tbd c)); [apply Hok|exact Hc|reflexivity|reflexivity|reflexivity].
     + set (w1 := match c_kind c with
                  | KDeferred e => if ev_alive w e then ev_dequeue w e {| h_impl := Some i; h_id := Some k |} else w
                  | _ => w end).
@@ -371,7 +395,7 @@ Proof.
       * eapply wle_on_trans; [exact Hle1|].
         eapply wle_put; [eassumption|imono|].
         { rewrite alloc_erase by apply Hok. apply stale_deallocate; [apply Hok|assumption]. }
-        intros _. split; [reflexivity|split]; cbn; [rewrite Hem; discriminate|auto].
+        intros _. split; [reflexivity|split; [|split]]; cbn; [rewrite Hem; discriminate|auto|rewrite Hem; discriminate].
   - pose proof Hok as (Hwf & Hfr & Hmk & Hal). destruct (erase_spec _ k Hwf) as (_ & _ & _ & Hnoop & _).
     rewrite (Hnoop Hc).
     assert (E : impl_with_conns m (i_conns m) = m) by (destruct m; reflexivity).
@@ -410,7 +434,7 @@ Proof.
   intros Hw. unfold release_owner. destruct (get_impl w i) as [m|] eqn:Hm; [|split; [auto|apply wle_on_refl]].
   split.
   - apply winv_put; [assumption|]. apply impl_ok_release. eapply Hw; eassumption.
-  - eapply wle_put; [eassumption|imono|]. intros _. split; [|split]; cbn; auto.
+  - eapply wle_put; [eassumption|imono|]. intros _. apply impl_keeps_same_conns; cbn; auto.
 Qed.
 
 Lemma sig_disconnect_all_ok w s : winv w -> winv (sig_disconnect_all w s) /\ wle w (sig_disconnect_all w s).
@@ -436,8 +460,9 @@ Proof.
   - apply winv_put; [assumption|]. eapply impl_ok_update_same; [eapply Hw; eassumption|eassumption|reflexivity].
   - eapply wle_put; [eassumption|imono|].
     { unfold g_update. rewrite Hc. assumption. }
-    intros _. split; [reflexivity|split]; cbn; [|auto].
-    intros _. split; [apply keys_update; congruence|]. unfold g_update. rewrite Hc. reflexivity.
+    intros _. split; [reflexivity|split; [|split]]; cbn; [|auto|].
+    + intros _. split; [apply keys_update; congruence|]. unfold g_update. rewrite Hc. reflexivity.
+    + intros _. eapply (marks_update m _ k c (conn_set_blocked c b)); [apply (Hw _ _ Hm)|exact Hc|reflexivity|intros Ht; exact Ht|reflexivity].
 Qed.
 
 Lemma impl_disconnect_nonemitting w i k m c :
@@ -661,7 +686,7 @@ Section Contract.
     intros m0 m' H0 H'. rewrite Hm in H0; inversion H0; subst m0.
     destruct (finish_emit_flag w2 i (g_size (i_conns m)) m2 Hg2 Hw2) as (m3 & Hg3 & He3 & Hd3).
     rewrite Hg3 in H'; inversion H'; subst m'.
-    split; [congruence|]. split; [rewrite Hem; discriminate|auto].
+    split; [congruence|]. split; [rewrite Hem; discriminate|]. split; [auto|rewrite Hem; discriminate].
   Qed.
 
   Lemma pass_loop_ok e : forall fuel w pos, winv w -> okres w (pass_loop R fuel w e pos).
@@ -730,7 +755,7 @@ Section Contract.
         eapply wle_put; [eassumption| |].
         { split; [exists [k]; reflexivity|]. intros k0 Hst. cbn [impl_issue i_conns].
           eapply stale_allocate; [apply Hwf|exact Hfr|exact Hlt|exact Hal'|exact Hst]. }
-        intros _. split; [reflexivity|split]; cbn; [rewrite Hem; discriminate|auto].
+        intros _. split; [reflexivity|split; [|split]]; cbn; [rewrite Hem; discriminate|auto|rewrite Hem; discriminate].
     - set (i := length (w_impls w)).
       set (w1 := set_impls w (w_impls w ++ [impl_new])).
       set (w1' := set_sigs w1 (bind_key (w_sigs w1) s (Some i))).
@@ -777,7 +802,7 @@ Section Contract.
         eapply wle_put; [eassumption| |].
         { split; [exists [k]; reflexivity|]. intros k0 Hst. cbn [impl_issue i_conns].
           eapply stale_allocate; [apply wf_alloc_empty|apply fresh_inv_empty|exact Hlt|exact Hal'|exact Hst]. }
-        intros _. split; [reflexivity|split]; cbn; [discriminate|auto].
+        intros _. split; [reflexivity|split; [|split]]; cbn; [discriminate|auto|discriminate].
   Qed.
 End Contract.
 
